@@ -132,6 +132,15 @@ def make(macros, plain=("c",), red=None, b1=True):
         walk(body)
     if vks or vmacros:
         extra.append("(defvirtualkeys " + " ".join(["%s %s" % vks[y] for y in sorted(vks)] + vmacros) + ")")
+    # plain keys: "c" (output y/z/w), or (key, action text, output key name or None): e.g. ("c", "lsft", "lsft") = a key
+    # whose output is also a key of a macro ("shared"), ("c", "(unshift z)", None) = some other action held meanwhile
+    shared = []
+    special = [k for k in plain if isinstance(k, tuple)]
+    plain = [k for k in plain if not isinstance(k, tuple)]
+    for (k, text, out) in special:
+        layer[k] = {"t": "raw", "text": text}
+        if out:
+            shared.append({"c": cfgdesc.code(k), "o": cfgdesc.code(out)})
     for k in plain:
         layer[k] = {"t": "key", "k": pouts[k]}
 
@@ -149,11 +158,14 @@ def make(macros, plain=("c",), red=None, b1=True):
     if used & {pouts[k] for k in plain}:
         raise ToolError("C08 instance: a plain key's output is also a macro key: %r" % sorted(used & {pouts[k] for k in plain}))
     keys = [m[0] for m in macros if not isinstance(m[0], tuple)] + \
-           [pk for m in macros if isinstance(m[0], tuple) for pk in m[0][2].values()] + list(plain)
+           [pk for m in macros if isinstance(m[0], tuple) for pk in m[0][2].values()] + list(plain) + \
+           [k for (k, _, _) in special]
     desc = {"keys": keys, "layers": [layer], "extra": extra}
     if red is not None:
         desc["defcfg"] = {"rapid-event-delay": red}
     params = {"macros": pm, "cap": 4, "b1": b1}
+    if shared:
+        params["shared"] = shared
     return desc, params
 
 
@@ -175,6 +187,10 @@ def family(tier, rng):
         ("btn_last", [("a", "macro", ["x", BTN("Left")])], ("c",), 2, 2),
         ("btn_relc", [("a", "macro-release-cancel", ["x", BTN("Left"), 2, "b"])], ("c",), 2, 2),
         ("btn_two", [("a", "macro", ["x", BTN("Left"), BTN("Right")])], ("c",), 2, 2),
+        # a plain key whose output is a key the macro holds across steps (the OS sees it down while either holds it)
+        ("shared_mod", [("a", "macro", [G(S, "a", 2, "b")])], (("c", "lsft", "lsft"),), 2, 2),
+        # an unshift key held while a release-cancel takes effect (its output has no key state in the layout)
+        ("relc_unshift", [("a", "macro-release-cancel", [G(C, "a", 2, "b")])], (("c", "(unshift z)", None),), 2, 2),
         # a repeating macro on a virtual key operated by toggle-vkey / release-vkey
         ("rep_vkey", [(("vk", "v1", {"tg": "a", "rk": "b"}), "macro-repeat", ["x", MK(S, "b")])], (), 2, 2),
     ]
@@ -192,6 +208,7 @@ def family(tier, rng):
             ("btn_pc", [("a", "macro-cancel-on-press", [BTN("Left"), "x", BTN("Left"), BTN("Right")])], ("c",), 1, 2),
             # a cancel-on-press key released normally next to a longer plain macro and a plain key
             ("stale_pc", [("a", "macro-repeat-cancel-on-press", ["a"]), ("b", "macro", [G(S, "g", 2, "h")])], ("c",), 2, 1),
+            ("shared_key", [("a", "macro-release-cancel", ["a", MK(S, "b"), "a"])], (("c", "a", "a"),), 2, 2),
             ("plain_grp2", [("a", "macro", [G(S, "a", 3, "b"), "a"])], ("c",), 2, 2),
             ("rep_vkey3", [(("vk", "v1", {"tg": "a", "pk": "b", "rk": "c"}), "macro-repeat", ["x", 1, "b"])], (), 2, 2),
             ("ring", [("a", "macro", [G(S, "a", 3, "b"), 3])], (), 4, 2),
@@ -380,6 +397,10 @@ def cancel_sweep(kbd, params, mkey, other, variant, span):
     for t in range(span):
         if rc or rep:
             out.append([["d", mkey], ["t", t], ["u", mkey], ["t", 3 * span]])
+            if other != mkey:    # the same with another key held all the while, and released in the middle
+                out.append([["d", other], ["t", 2], ["d", mkey], ["t", t], ["u", mkey], ["t", 3 * span], ["u", other], ["t", 5]])
+        if other != mkey:        # another key is down before the macro starts and goes up at every step index
+            out.append([["d", other], ["t", 2], ["d", mkey], ["t", t], ["u", other], ["t", 2], ["u", mkey], ["t", 3 * span]])
         if pc:
             out.append([["d", mkey], ["t", t], ["d", other], ["t", 2], ["u", other], ["u", mkey], ["t", 3 * span]])
     return out
